@@ -211,6 +211,9 @@ def run(tier="quick", replay=None):
     # ---------------- R05.g quoted data is never renamed ---------------------------------------
     check_quoted_not_renamed(prog, R)
 
+    # ---------------- R05.h generated names in the reported symbol table ---------------------------
+    check_generated_names_in_symbols(prog, R)
+
     # ---------------- R05.a / R05.b order taint ------------------------------------------------
     ordertaint.check(prog, R, tier, compile_reach)
     return R.finalize()
@@ -366,3 +369,75 @@ def check_quoted_not_renamed(prog, R):
                 R.ob("R05.g", key + "#%d" % n, "%s:%s" % (f.file, s.get("line")),
                      "auto: quoted payload is carried over unchanged (no rename-map lookup, no gensym)", fn=f.path)
     R.floor("R05.g", "BodyForm::Quoted constructions in the renamer", n, 1)
+
+
+def check_generated_names_in_symbols(prog, R):
+    """The reported symbol table maps code hashes to function names.  If a name produced by gensym (suffix = value of
+    the process-wide counter) can be stored as a function's name and that name is handed to add_defun, the symbol
+    ENTRIES of one and the same program differ between two compilations in one process."""
+    GENSYM = "compiler::gensym::gensym"
+    NAME_COPY = ("clone", "to_vec", "to_owned", "deref", "borrow", "as_ref", "into", "from")
+    carrying = {}
+    for f in prog.fns.values():
+        if f.path.endswith("as std::clone::Clone>::clone"):
+            continue
+        fl = None
+        for bb, i, s in f.stmts():
+            rv = s["rv"]
+            if not (rv["k"] == "agg" and rv.get("agg") == "adt" and rv.get("fields")):
+                continue
+            for fld, o in zip(rv["fields"], rv["ops"]):
+                l = op_local(o)
+                if l is None or f.local_ty(l) != "std::vec::Vec<u8>":
+                    continue
+                fl = fl or Flow(f)
+                # direct provenance: gensym result through copies only
+                cur, seen, hit = {l}, set(), False
+                while cur:
+                    x = cur.pop()
+                    if x in seen:
+                        continue
+                    seen.add(x)
+                    for b2, t2 in fl.call_defs.get(x, []):
+                        c = callee_of(t2) or ""
+                        if c == GENSYM:
+                            hit = True
+                        elif c.rsplit("::", 1)[-1] in NAME_COPY and t2["args"]:
+                            p = op_place(t2["args"][0])
+                            if p:
+                                cur.add(fl.node(p))
+                    for b2, i2, s2 in f.stmts():
+                        if fl.node(s2["pl"]) == x and not s2["pl"]["p"] and s2["rv"]["k"] in ("use", "ref"):
+                            for o2 in rv_operands(s2["rv"]):
+                                p = op_place(o2)
+                                if p and not [e for e in p["p"] if e != "*"]:
+                                    cur.add(fl.node(p))
+                if hit:
+                    carrying.setdefault((rv["adt"], fld), []).append("%s:%s" % (f.file, s.get("line")))
+    sinks = []
+    for f, bb, t in prog.call_sites(lambda c: c == "compiler::comptypes::PrimaryCodegen::add_defun"):
+        fl = Flow(f)
+        l = op_local(t["args"][1]) if len(t["args"]) > 1 else None
+        flds = set()
+        for x in fl.back_pure([l]) if l is not None else []:
+            for b2, i2, s2 in f.stmts():
+                if fl.node(s2["pl"]) == x:
+                    for o in rv_operands(s2["rv"]):
+                        p = op_place(o)
+                        if p:
+                            for e in p["p"]:
+                                if isinstance(e, dict) and "f" in e and e.get("of"):
+                                    flds.add((e["of"].split("::")[-1] if False else e["of"], e["f"]))
+        for (adt, fld), where in carrying.items():
+            if any(of == adt or of.startswith(adt + "::") or adt.endswith(of) for of, ff in flds if ff == fld):
+                sinks.append((f, bb, adt, fld, where))
+    R.counts["fields that can hold a generated name"] = sorted("%s.%s" % k for k in carrying)
+    if not sinks:
+        R.ob("R05.h", "R05.h|no-generated-names-in-symbols", "compiler::comptypes::PrimaryCodegen::add_defun",
+             "auto: no function name handed to add_defun is read from a field that can hold a gensym result")
+    for f, bb, adt, fld, where in sinks:
+        R.viol("R05.h", "R05.h|generated-names-in-symbols|%s.%s" % (adt.rsplit("::", 1)[-1], fld), f.loc(bb),
+               "%s registers function symbols under `%s.%s`, which for compiler-synthesised functions (let bindings, lambdas) holds a "
+               "gensym name `x_$_N` (assigned at %s): N is the value of the process-wide counter, so the user-visible symbol entries "
+               "of the same program differ between two compilations in one process" % (
+                   f.path, adt.rsplit("::", 1)[-1], fld, ", ".join(sorted(set(where))[:3])), fn=f.path)
